@@ -266,9 +266,10 @@ def _args(e):
 
 def sum_uv(ctx, facts):
     ctx.rule("CONST-field: sum_of_uv = truncate_from(m) * MINUS_ONE_HALF in Batch::validate")
-    for x in facts.tree(DV + "Batch::validate"):
-        if not x.coroutine:
-            continue
+    cors = [x for x in facts.tree(DV + "Batch::validate") if x.coroutine]
+    # (the computation may sit in a private method of Batch that validate calls: one level is followed)
+    helpers = [facts.bodies[fn] for x in cors for _, t in x.calls() for fn in [F.callee(t)[0] or ""] if fn in facts.bodies and fn.startswith(DV + "Batch::") and not fn.endswith("::validate")]
+    for x in cors + helpers:
         for bb, t in x.calls():
             if (F.callee(t)[0] or "").endswith("Mul::mul"):
                 s = str(flow.expr_of(x, t["args"][1])) + str(flow.expr_of(x, t["args"][0]))
